@@ -253,6 +253,12 @@ FAILMASK = [
          why="documented: on failure the point is set to the neutral -- every data-dependent coordinate must depend on every check fact of the status (gls254 is excluded: its status also covers the w = 0 encoding of the neutral, which the formulas map to the neutral without a mask)"),
 ]
 
+MASKBYTES = [
+    dict(fn=r"crrl::(jq255e|jq255s|gls254)::PrivateKey::ECDH", props=["C09"], status_field=1,
+         facts=r"call:Point::(set_decode|isneutral)\(.*",
+         why="on any failure (undecodable OR neutral peer key) the shared bytes are replaced by the secret-derived alternative: the mask must see the whole status"),
+]
+
 INDEPENDENT = [
     dict(fn=r"crrl::(ed25519|ed448|p256|secp256k1|jq255e|jq255s|gls254|ristretto255|decaf448)::Point::set_mulgen", param=1, props=["C04"],
          why="set_mulgen(n) computes n*G: its result must not depend on the previous value of self (the first table lookup overwrites, later ones accumulate)"),
@@ -301,7 +307,7 @@ def main():
                         include_out=fam_["include_out"], optional=fam_["optional"], matched_today=len(matched)))
     tab = dict(_comment="G3 required gates / G1 forbidden flows. Generated by tools/gen_gates.py from the conjunct classes written "
                "there (spec references in 'why'); 'min' = number of distinct matching check facts reaching the result on the "
-               "reviewed tree.", functions=out, call_args=CALL_ARGS, independent=INDEPENDENT, failmask=FAILMASK)
+               "reviewed tree.", functions=out, call_args=CALL_ARGS, independent=INDEPENDENT, failmask=FAILMASK, maskbytes=MASKBYTES)
     json.dump(tab, open(os.path.join(os.path.dirname(os.path.dirname(os.path.abspath(__file__))), "tables", "gates.json"), "w"), indent=1)
     print("families", len(out), "gates", sum(len(x["gates"]) for x in out), "problems", problems)
 
